@@ -60,6 +60,7 @@ func rtBuild(c Sx, caching bool) *rtRouter {
 	var opts, later []func(*rux.Router)
 	customNF, customNA, lateOpt := false, false, false
 	groupPrefix, inGroup := "", false
+	var gvars [][2]string
 	for _, o := range xs[1].Lst() {
 		switch o.Head() {
 		case "strict":
@@ -95,11 +96,30 @@ func rtBuild(c Sx, caching bool) *rtRouter {
 			lateOpt = true
 		case "group":
 			groupPrefix, inGroup = o.List[1].Str(), true
+		case "gvar":
+			gvars = append(gvars, [2]string{o.List[1].Str(), o.List[2].Str()})
+			if len(o.List) > 3 {
+				// the variable had another definition before, and another router of the process registered the very same
+				// path texts under it
+				rux.SetGlobalVar(o.List[1].Str(), o.List[3].Str())
+				old := rux.New()
+				for _, d := range xs[2].Lst() {
+					func() {
+						defer func() { _ = recover() }()
+						old.Add(d.List[1].Str(), func(*rux.Context) {}, d.List[0].Strs()...)
+					}()
+				}
+			}
 		default:
 			panic("rt: bad option " + o.String())
 		}
 	}
 	rr := &rtRouter{r: rux.New(opts...), byName: map[string]int{}}
+	// global path variables defined by the application after the router exists and before its routes are added
+	// (the table is package-level state: rtExec removes the names again)
+	for _, gv := range gvars {
+		rux.SetGlobalVar(gv[0], gv[1])
+	}
 	if len(later) > 0 {
 		rr.r.WithOptions(later...)
 	}
@@ -246,6 +266,11 @@ func rtExec(c Sx) Sx {
 	}
 	main := rtBuild(c, true)
 	twin := rtBuild(c, false)
+	for _, o := range xs[1].Lst() {
+		if o.Head() == "gvar" {
+			defer delete(rux.GetGlobalVars(), o.List[1].Str())
+		}
+	}
 	var qs []Sx
 	next := len(xs[2].Lst())
 	for k, q := range xs[3].Lst() {
